@@ -22,7 +22,7 @@ from concurrent.futures import ThreadPoolExecutor
 import scen
 
 APIS = [["config", "show"], ["target", "show", "-g"], ["analyze", "--target-groups"], ["run", "-c", "build"],
-        ["checkpoint", "update"], ["result", "show"]]
+        ["checkpoint", "update"], ["result", "show"], ["log", "show", "--stdout"], ["checkpoint", "show"], ["out", "delete"]]
 
 
 def make_value(rng, ntargets, names_unicode=True):
@@ -111,6 +111,31 @@ def c17_case(seed, model, rep):
                                  "api": api, "rc": rc, "stderr": err[-300:]})
                 return
         files = {"source": (src_path, src_bytes), "generated": (gen_path, gen_bytes), "lock": (lock_path, lock_bytes)}
+        if len(gen_bytes) <= 2500:
+            # a small generated file: a single-byte edit at EVERY offset must be rejected (one cheap
+            # read-only API per edit)
+            st = os.stat(gen_path)
+            accepted = []
+            for off in range(len(gen_bytes)):
+                b = bytearray(gen_bytes)
+                old = b[off]
+                b[off] = (old ^ 0x01) if rng.chance(1, 2) else (ord("d") if old != ord("d") else ord("e"))
+                open(gen_path, "wb").write(bytes(b))
+                os.utime(gen_path, ns=(st.st_atime_ns, st.st_mtime_ns))
+                pr = scen.subprocess.run([scen.MONORAIL, "-f", gen_path, "config", "show"], cwd=repo.dir, env=repo.env(),
+                                         stdin=scen.subprocess.DEVNULL, stdout=scen.subprocess.PIPE, stderr=scen.subprocess.PIPE, timeout=60)
+                if pr.returncode == 0:
+                    accepted.append(off)
+            open(gen_path, "wb").write(gen_bytes)
+            os.utime(gen_path, ns=(st.st_atime_ns, st.st_mtime_ns))
+            rep.evaluations += 1
+            rep.count("every_offset_sweeps")
+            rep.count("every_offset_edits", len(gen_bytes))
+            if accepted:
+                rep.oracle_fail({"kind": "a tampered source / generated file / lockfile was accepted", "case": case,
+                                 "tamper": {"file": "generated", "kind": "single-byte edit", "offsets_accepted": accepted[:20],
+                                            "context": gen_bytes[max(0, accepted[0] - 12):accepted[0] + 12].decode("utf-8", "replace")}})
+                return
 
         def tamper_list():
             out = []
@@ -315,6 +340,41 @@ def c18_case(seed, model, rep):
             elif cur != ref[1]:
                 rep.oracle_fail({"kind": "the output of an API depends on the serialisation of the configuration", "case": case,
                                  "serialisations": [ref[0], name]})
+                return
+        # `config generate` reads the configuration from standard input: its products (generated file,
+        # lockfile, report) depend on the value only - whitespace, key order, size, pipe chunking
+        srcv = dict(cfg)
+        srcv["source"] = {"path": "Monorail.src.js"}
+        open(os.path.join(repo.dir, "Monorail.src.js"), "w").write("// source of truth\n")
+        gpath = os.path.join(repo.dir, "Monorail.generated.json")
+        lpath = os.path.join(repo.dir, "Monorail.generated.lock")
+        products = []
+        for name, text in serialisations(srcv, rng):
+            if name not in ("compact", "pretty2", "shuffled", "shuffled_compact", "leading_200k", "inner_pad_70k", "newlines_300k", "escaped_strings"):
+                continue
+            for f in (gpath, lpath):
+                if os.path.exists(f):
+                    os.remove(f)
+            pr = scen.subprocess.run([scen.MONORAIL, "-f", gpath, "config", "generate"], cwd=repo.dir, env=repo.env(),
+                                     input=text.encode("utf-8"), stdout=scen.subprocess.PIPE, stderr=scen.subprocess.PIPE, timeout=120)
+            rep.evaluations += 1
+            rep.count("generate_" + name)
+            if pr.returncode != 0 or not os.path.exists(gpath) or not os.path.exists(lpath):
+                rep.oracle_fail({"kind": "a serialisation of a valid configuration is rejected", "case": case, "api": "config generate (stdin)",
+                                 "serialisation": name, "bytes": len(text.encode()), "stderr": pr.stderr.decode("utf-8", "replace")[-300:]})
+                return
+            rpt = None
+            try:
+                rpt = strip_ts(json.loads(pr.stdout.decode().strip().split("\n")[-1])) if pr.stdout.strip() else None
+            except ValueError:
+                pass
+            products.append((name, open(gpath, "rb").read(), open(lpath, "rb").read(), rpt))
+        for name, g, l, rpt in products[1:]:
+            if (g, l, rpt) != products[0][1:]:
+                rep.oracle_fail({"kind": "the output of an API depends on the serialisation of the configuration", "case": case,
+                                 "api": "config generate (stdin)", "serialisations": [products[0][0], name],
+                                 "generated_file_differs": g != products[0][1], "lockfile_differs": l != products[0][2],
+                                 "report_differs": rpt != products[0][3]})
                 return
         # the same history of runs, once under one serialisation throughout and once with the file
         # re-serialised in the middle: everything the store APIs return must be the same
